@@ -1,6 +1,225 @@
 import EupsModel.Drv.Util
+import EupsModel.Model.Cache
+import EupsModel.Model.DbFile
+/-! Driver handler of the database family (C06, C15, C07): run a history of commands on `Cache.World`.
+
+Request `{"m":"c06","nst":2,"dirs":[[root,rel,tname]..],"pinned":false,"cmds":[cmd..]}` with
+`cmd = {"op":"declare"|"undeclare"|"assignTag"|"unassignTag"|"query"|"rmcache", "user":0, "self":"Linux", ...}`;
+answer `{"steps":[{"out","crashed","flavs","view","trace","db","caches"}..]}` — the state after every command. -/
 namespace EupsModel.Drv.C06
-open Lean EupsModel EupsModel.Drv
-/-- placeholder until the C06 model exists -/
-def handle : Handler := fun _ => throw "model C06 not built"
+open Lean EupsModel EupsModel.Drv EupsModel.Db EupsModel.Cache EupsModel.DbFile
+
+def jnatOpt (j : Json) (k : String) : Except String (Option Nat) :=
+  match j.getObjVal? k with
+  | .ok Json.null => pure none
+  | .ok v => do pure (some (← v.getNat?))
+  | .error _ => pure none
+
+def jboolD (j : Json) (k : String) : Except String Bool :=
+  match j.getObjVal? k with
+  | .ok Json.null => pure false
+  | .ok v => v.getBool?
+  | .error _ => pure false
+
+def dirOfJson (j : Json) : Except String Dir := do
+  let a ← j.getArr?
+  if h : a.size = 2 then
+    pure ⟨← a[0].getNat?, Str.ofString (← a[1].getStr?)⟩
+  else throw "dir: expected [root, rel]"
+
+def jdirOpt (j : Json) (k : String) : Except String (Option Dir) :=
+  match j.getObjVal? k with
+  | .ok Json.null => pure none
+  | .ok v => do pure (some (← dirOfJson v))
+  | .error _ => pure none
+
+def dirEntOfJson (j : Json) : Except String DirEnt := do
+  let a ← j.getArr?
+  if h : a.size = 3 then
+    pure ⟨⟨← a[0].getNat?, Str.ofString (← a[1].getStr?)⟩, Str.ofString (← a[2].getStr?)⟩
+  else throw "dirs: expected [root, rel, tname]"
+
+/-- `"table"`: absent / null (tablefile=None), `"none"`, `["path", [root, rel]]`, `["stream", content]` -/
+def tableArgOfJson (j : Json) : Except String TableArg :=
+  match j.getObjVal? "table" with
+  | .ok Json.null => pure .dflt
+  | .ok (Json.str "none") => pure .none
+  | .ok (Json.arr a) =>
+    if h : a.size = 2 then do
+      let k ← a[0].getStr?
+      if k == "path" then pure (.path (← dirOfJson a[1]))
+      else if k == "stream" then pure (.stream (← a[1].getNat?))
+      else throw s!"table: unknown kind {k}"
+    else throw "table: expected [kind, value]"
+  | .ok _ => throw "table: expected null, \"none\" or [kind, value]"
+  | .error _ => pure .dflt
+
+def tfileOfJson (j : Json) : Except String TFile := do
+  let a ← j.getArr?
+  if h : a.size = 2 then pure ⟨← dirOfJson a[0], ← a[1].getNat?⟩ else throw "tfiles: expected [[root, rel], content]"
+
+def declareOfJson (self : Flav) (j : Json) : Except String Cmd := do
+  let name ← jstr j "name"
+  let ver ← jstr j "version"
+  let dir ← jdirOpt j "dir"
+  let stack ← jnatOpt j "stack"
+  let table ← tableArgOfJson j
+  let tag ← jstrOpt j "tag"
+  let force ← jboolD j "force"
+  let noaction ← jboolD j "noaction"
+  let ext ← match j.getObjVal? "ext" with
+    | .ok (Json.arr a) => a.toList.mapM fun e => do
+        let x ← e.getArr?
+        if h : x.size = 2 then pure (Str.ofString (← x[0].getStr?), ← x[1].getNat?) else throw "ext: expected [path, content]"
+    | _ => pure []
+  pure (Cmd.declare ⟨self, name, ver, dir, stack, table, tag, force, noaction, ext⟩)
+
+def setupOfJson (j : Json) : Except String (Option (Ver × Flav × Nat)) :=
+  match j.getObjVal? "setup" with
+  | .ok Json.null => pure none
+  | .ok v => do
+    let a ← v.getArr?
+    if h : a.size = 3 then
+      pure (some (Str.ofString (← a[0].getStr?), Str.ofString (← a[1].getStr?), ← a[2].getNat?))
+    else throw "setup: expected [version, flavor, stack]"
+  | .error _ => pure none
+
+def undeclareOfJson (self : Flav) (j : Json) : Except String Cmd := do
+  let name ← jstr j "name"
+  let ver ← jstrOpt j "version"
+  let stack ← jnatOpt j "stack"
+  let tag ← jstrOpt j "tag"
+  let vat ← jboolD j "vat"
+  let noaction ← jboolD j "noaction"
+  let force ← jboolD j "force"
+  let setup ← setupOfJson j
+  pure (Cmd.undeclare ⟨self, name, ver, stack, tag, vat, noaction, force, setup⟩)
+
+def assignOfJson (self : Flav) (j : Json) : Except String Cmd := do
+  let tag ← jstr j "tag"
+  let name ← jstr j "name"
+  let ver ← jstr j "version"
+  let stack ← jnatOpt j "stack"
+  pure (Cmd.assignTag self tag name ver stack)
+
+def unassignOfJson (self : Flav) (j : Json) : Except String Cmd := do
+  let tag ← jstr j "tag"
+  let name ← jstr j "name"
+  let ver ← jstrOpt j "version"
+  let stack ← jnatOpt j "stack"
+  let noaction ← jboolD j "noaction"
+  pure (Cmd.unassignTag self tag name ver stack noaction)
+
+def removeOfJson (self : Flav) (j : Json) : Except String Cmd := do
+  let name ← jstr j "name"
+  let ver ← jstr j "version"
+  let noaction ← jboolD j "noaction"
+  let recursive ← jboolD j "recursive"
+  let force ← jboolD j "force"
+  let setup ← setupOfJson j
+  pure (Cmd.remove self name ver recursive noaction force setup)
+
+def cmdOfJson (j : Json) : Except String WCmd := do
+  let op ← (← j.getObjVal? "op").getStr?
+  let user := (← jnatOpt j "user").getD 0
+  if op == "clearcache" then
+    pure (.clearCache user)
+  else if op == "envrmdir" then
+    pure (.envRmDir (← dirOfJson (← j.getObjVal? "dir")))
+  else if op == "adminbuild" then
+    pure (.adminBuild user (← jstr j "self"))
+  else if op == "rmcache" then
+    let s ← jnat j "stack"
+    let f ← jstr j "flavor"
+    pure (.rmCache user s f)
+  else
+    let self ← jstr j "self"
+    let crash ← jnatOpt j "crash"
+    let c : Cmd ←
+      if op == "declare" then declareOfJson self j
+      else if op == "undeclare" then undeclareOfJson self j
+      else if op == "assignTag" then assignOfJson self j
+      else if op == "unassignTag" then unassignOfJson self j
+      else if op == "remove" then removeOfJson self j
+      else if op == "query" then pure (Cmd.query self)
+      else throw s!"unknown op {op}"
+    pure (.run user c crash)
+
+def ofDir (d : Dir) : Json := Json.arr #[Json.num d.root, ofStr d.rel]
+def ofTable : Table → Json
+  | .default => "default"
+  | .none => "none"
+  | .ext d => ofDir d
+  | .interned => "interned"
+def ofDecl (d : Decl) : Json :=
+  Json.arr #[Json.num d.stack, ofStr d.name, ofStr d.ver, ofStr d.flav, ofDir d.dir, ofTable d.table]
+def ofTagRec (r : TagRec) : Json :=
+  Json.arr #[Json.num r.stack, ofStr r.tag, ofStr r.name, ofStr r.flav, ofStr r.ver]
+def ofSpec (c : Spec) : Json :=
+  Json.mkObj [("decls", Json.arr (c.decls.map ofDecl).toArray), ("tags", Json.arr (c.tags.map ofTagRec).toArray)]
+def ofOutcome : Outcome → Json
+  | .ok => "ok"
+  | .refused => "Refused"
+  | .notFound => "NotFound"
+  | .failed => "Other:RuntimeError"
+  | .tableMissing => "Other:TableFileNotFound"
+def ofTagOpt : Option Tag → Json
+  | none => Json.null
+  | some t => ofStr t
+def ofEff : Eff → Json
+  | .declare d t => Json.arr #["declare", ofDecl d, ofTagOpt t]
+  | .undeclare s n v f => Json.arr #["undeclare", Json.num s, ofStr n, ofStr v, ofStr f]
+  | .assign s t n f v => Json.arr #["assign", Json.num s, ofStr t, ofStr n, ofStr f, ofStr v]
+  | .unassign s t n f => Json.arr #["unassign", Json.num s, ofStr t, ofStr n, ofStr f]
+  | .rmTree d => Json.arr #["rmTree", ofDir d]
+  | .copyExtra x => Json.arr #["copyExtra", Json.num x.stack, ofStr x.flav, ofStr x.name, ofStr x.ver, ofStr x.path, Json.num x.content]
+def ofMsg : Msg → Json
+  | .declaring s t => Json.arr #["declaring", Json.num s, ofTagOpt t]
+  | .assigning t => Json.arr #["assigning", ofStr t]
+  | .untag t => Json.arr #["untag", ofStr t]
+  | .removing v s => Json.arr #["removing", ofStr v, Json.num s]
+  | .rmrf d => Json.arr #["rmrf", ofDir d]
+  | .copy path => Json.arr #["copy", ofStr path]
+
+def ofCache (c : CacheFile) : Json :=
+  Json.mkObj [("user", Json.num c.user), ("stack", Json.num c.stack), ("flavor", ofStr c.flav),
+              ("mtime", Json.num c.mtime), ("c", ofSpec c.c)]
+def ofTouch (t : Touch) : Json := Json.arr #[Json.num t.stack, ofStr t.name, Json.num t.mtime]
+
+def ofFileDb (F : FileDb) : Json :=
+  Json.mkObj
+    [("vfiles", Json.arr (F.vfiles.map fun x =>
+        Json.arr #[Json.num x.key.1, ofStr x.key.2.1, ofStr x.key.2.2, ofStrs (x.recs.map (·.flav))]).toArray),
+     ("cfiles", Json.arr (F.cfiles.map fun x =>
+        Json.arr #[Json.num x.key.1, ofStr x.key.2.1, ofStr x.key.2.2, ofStrs (x.recs.map (·.flav))]).toArray),
+     ("abs", ofSpec (DbFile.abs F))]
+
+def handle : Handler := fun j => do
+  let nst ← jnat j "nst"
+  let dirs ← (← jarr j "dirs").mapM dirEntOfJson
+  let pinned ← jboolD j "pinned"
+  let tfiles ← match j.getObjVal? "tfiles" with
+    | .ok (Json.arr a) => a.toList.mapM tfileOfJson
+    | _ => pure []
+  let mut w := World.init nst dirs tfiles
+  let mut F := FileDb.empty
+  let mut steps : Array Json := #[]
+  for cj in (← jarr j "cmds") do
+    let c ← cmdOfJson cj
+    let r := stepG (!pinned) w c
+    w := r.w
+    F := r.trace.foldl (fun F e => applyF e F) F
+    steps := steps.push <| Json.mkObj
+      [("out", ofOutcome r.out), ("crashed", Json.bool r.crashed),
+       ("flavs", Json.arr ((allStacks nst).map fun s => ofStrs (heldOf r.flavs s)).toArray), ("view", ofSpec r.view),
+       ("trace", Json.arr (r.trace.map ofEff).toArray), ("would", Json.arr (r.would.map ofMsg).toArray),
+       ("db", ofSpec w.db),
+       ("caches", Json.arr (w.caches.map ofCache).toArray),
+       ("touch", Json.arr (w.touch.map ofTouch).toArray),
+       ("dirs", Json.arr (w.dirs.map fun d => ofDir d.dir).toArray),
+       ("files", ofFileDb F),
+       ("extras", Json.arr (w.extras.map fun x =>
+          Json.arr #[Json.num x.stack, ofStr x.flav, ofStr x.name, ofStr x.ver, ofStr x.path, Json.num x.content]).toArray)]
+  pure (Json.mkObj [("steps", Json.arr steps)])
+
 end EupsModel.Drv.C06
